@@ -8,8 +8,16 @@ import re, subprocess, sys, os, tempfile
 
 COQ = os.path.join(os.path.dirname(os.path.dirname(os.path.abspath(__file__))), "coq")
 
-def statements(prelude, names):
-    src = prelude + "\nSet Printing Width 112.\n" + "".join("Check %s.\n" % n for n in names)
+def statements(prelude, names, unfold=None):
+    unfold = unfold or {}
+    src = prelude + "\nSet Printing Width 112.\n"
+    for n in names:
+        if unfold.get(n):
+            # same statement with the named *_stmt definitions unfolded, printed in the `Check` layout
+            src += ("Definition pin_tmp_%s := ltac:(let t := type of %s in let t' := eval cbv beta delta [%s] in t in exact t').\n"
+                    "Eval cbv delta [pin_tmp_%s] in pin_tmp_%s.\n" % (n, n, " ".join(unfold[n]), n, n))
+        else:
+            src += "Check %s.\n" % n
     with tempfile.TemporaryDirectory() as d:
         p = os.path.join(d, "pin.v")
         open(p, "w").write(src)
@@ -17,6 +25,15 @@ def statements(prelude, names):
         if r.returncode != 0:
             raise SystemExit(r.stdout + r.stderr)
     out, res = r.stdout, {}
+    blocks = re.split(r'^(?=\S+\n     : )', out, flags=re.M)
+    # Eval output:  "     = <stmt>\n     : Prop"  -> rewrite into the Check layout
+    k = 0
+    evn = [n for n in names if unfold.get(n)]
+    def fix(mo):
+        nonlocal k
+        n = evn[k]; k += 1
+        return "%s\n     : %s\n" % (n, mo.group(1).rstrip())
+    out = re.sub(r'^     = (.*?)\n     : Prop\n', fix, out, flags=re.S | re.M)
     blocks = re.split(r'^(?=\S+\n     : )', out, flags=re.M)
     for b in blocks:
         m = re.match(r'(\S+)\n     : (.*)', b, re.S)
@@ -27,10 +44,11 @@ def statements(prelude, names):
     return res
 
 def pins(prelude, items):
-    """items: list of (comment or None, lemma, new theorem name)"""
-    st = statements(prelude, [l for _, l, _ in items])
+    """items: list of (comment or None, lemma, new theorem name[, definitions to unfold in the printed statement])"""
+    st = statements(prelude, [it[1] for it in items], {it[1]: it[3] for it in items if len(it) > 3})
     out = ""
-    for c, l, n in items:
+    for it in items:
+        c, l, n = it[:3]
         if c:
             import textwrap
             out += "(* " + "\n   ".join(textwrap.wrap(c, 108)) + " *)\n"
